@@ -185,6 +185,7 @@ func init() {
 		}
 		badNames := []string{}
 		for _, n := range names {
+			tick()
 			fr, err := g.Filter(lint.FilterOptions{IncludeNames: []string{n}})
 			if err != nil || len(fr.Names()) != 1 || fr.Names()[0] != n {
 				badNames = append(badNames, n)
@@ -212,6 +213,7 @@ func init() {
 			}
 			allSrc := g.Sources()
 			for i, n := range names {
+				tick()
 				own := srcOf[n]
 				other := allSrc[i%len(allSrc)]
 				if other == own {
